@@ -47,15 +47,17 @@ type c06Row struct {
 }
 
 type c06Env struct {
-	ctx     context.Context // for the next reads, if set
-	r       *zsim.Run
-	srvs    []*zredis.Server
-	cc      CachedConn
-	db      map[int]int // id -> version (0: no row)
-	queries map[string]int
-	inQuery map[string]int
-	expire  time.Duration
-	nfExp   time.Duration
+	idBase   int             // added to the row ids reached through the index (large ids do not survive a float64)
+	idxSleep time.Duration   // the index query takes this long
+	ctx      context.Context // for the next reads, if set
+	r        *zsim.Run
+	srvs     []*zredis.Server
+	cc       CachedConn
+	db       map[int]int // id -> version (0: no row)
+	queries  map[string]int
+	inQuery  map[string]int
+	expire   time.Duration
+	nfExp    time.Duration
 }
 
 func c06Setup(r *zsim.Run, nodes int, expire, nf time.Duration) *c06Env {
@@ -136,11 +138,14 @@ func idxKey(name int) string { return fmt.Sprintf("cache:row:name:%d", name) }
 func (e *c06Env) queryIdx(name int) (c06Row, error) {
 	var row c06Row
 	key := idxKey(name)
-	id := name + 100
+	id := name + 100 + e.idBase
 	err := e.cc.QueryRowIndex(&row, key, func(primary any) string {
 		return pkKey(int(toInt(primary)))
 	}, func(_ sqlx.Conn, v any) (any, error) {
 		e.queries[key]++
+		if e.idxSleep > 0 {
+			zsim.Sleep(e.idxSleep)
+		}
 		ver := e.db[id]
 		if ver == 0 {
 			return nil, sql.ErrNoRows
@@ -344,6 +349,31 @@ func c06Readers(r *zsim.Run) {
 	r.Logf("readers n=%d exists=%v", n, exists)
 	r.NonTrivial()
 	done := 0
+	if o.Intn(3) == 0 {
+		// the readers go through a unique index whose row has a 19-digit primary key
+		e.idBase = 1234567890123456000
+		e.idxSleep = time.Duration(1+o.Intn(10)) * time.Millisecond
+		rid := 100 + e.idBase
+		if exists {
+			e.db[rid] = 9
+		}
+		for i := 0; i < n; i++ {
+			i := i
+			r.Go(fmt.Sprintf("ixreader%d", i), func() {
+				defer func() { done++ }()
+				if o.Intn(3) == 0 {
+					zsim.Sleep(time.Duration(o.Intn(8)) * time.Millisecond)
+				}
+				row, err := e.queryIdx(0)
+				r.Logf("ixreader%d -> %+v %v", i, row, err)
+				e.checkRead("concurrent QueryRowIndex", row, err, rid)
+			})
+		}
+		if !r.WaitFor(time.Minute, 10*time.Millisecond, func() bool { return done == n }) {
+			r.Failf("readers-blocked", "readers blocked: %v", r.Alive(false))
+		}
+		return
+	}
 	for i := 0; i < n; i++ {
 		i := i
 		r.Go(fmt.Sprintf("reader%d", i), func() {
@@ -393,6 +423,25 @@ func c06Faults(r *zsim.Run) {
 			if h := e.holder(pkKey(cand)); h != nil && h != srv {
 				otherID, otherKey, otherSrv = cand, pkKey(cand), h
 			}
+		}
+	}
+	// two further cached keys on the same node as the watched one (an old and a new value of a unique index, say):
+	// two writes during the outage name the watched key first and one of them each
+	var extra []string
+	var extraIDs []int
+	if o.Intn(3) == 0 {
+		for cand := 60; cand < 120 && len(extra) < 2; cand++ {
+			e.db[cand] = 1
+			if row, err := e.queryPK(cand, 0); !e.checkRead("warm-up", row, err, cand) {
+				return
+			}
+			if e.holder(pkKey(cand)) == srv {
+				extra = append(extra, pkKey(cand))
+				extraIDs = append(extraIDs, cand)
+			}
+		}
+		if len(extra) < 2 {
+			extra, extraIDs = nil, nil
 		}
 	}
 	kind := f.Intn(4) // 0 error replies, 1 refused dials, 2 reset before delivery (transient), 3 lost reply (transient)
@@ -466,6 +515,9 @@ func c06Faults(r *zsim.Run) {
 	}
 	t0 := r.Now()
 	keys := []string{key}
+	if extra != nil {
+		keys = append(keys, extra[0])
+	}
 	if otherSrv != nil {
 		keys = append(keys, otherKey)
 		r.Probe("multi_node_delete")
@@ -482,6 +534,18 @@ func c06Faults(r *zsim.Run) {
 		return nil, nil
 	}, keys...)
 	reqDone() // the request is over; the background retry must not depend on it
+	if extra != nil && kind <= 1 {
+		// a second write while the cache is still failing: the watched key again, and another key
+		if _, err := e.cc.Exec(func(sqlx.Conn) (sql.Result, error) {
+			e.db[id] = 3
+			e.db[extraIDs[0]], e.db[extraIDs[1]] = 3, 3
+			return nil, nil
+		}, key, extra[1]); err != nil {
+			r.Failf("exec-error", "the second Exec returned %v: a failed cache delete is retried in the background, not reported", err)
+			return
+		}
+		r.Probe("two_failed_deletes_sharing_their_first_key")
+	}
 	stillCached := srv.M.Exists(key)
 	if otherSrv != nil && otherSrv.M.Exists(otherKey) {
 		r.Failf("healthy-node-key-not-deleted", "the write named keys on two cache nodes; the node holding %s is healthy but the key is still cached after Exec returned", otherKey)
@@ -546,7 +610,15 @@ func c06Faults(r *zsim.Run) {
 		r.Failf("retry-too-late", "the fault ended %v after the failed delete, so the retry due at %v should have removed the key; it was only removed at %v", faultFor, deadline-t0, firstGone-t0)
 		return
 	}
-	if n := srv.Count("DEL", key); n > delsAtGone {
+	if extra != nil && kind <= 1 {
+		// both pending retries name the watched key; each must get its own keys deleted
+		for _, k := range extra {
+			if srv.M.Exists(k) {
+				r.Failf("failed-delete-never-retried-successfully", "two writes during the outage named %s plus %s and %s respectively; more than an hour after the fault ended %s is still cached: its retry was lost", key, extra[0], extra[1], k)
+				return
+			}
+		}
+	} else if n := srv.Count("DEL", key); n > delsAtGone {
 		r.Failf("retry-continues-after-success", "%d more DEL commands for key %s reached Redis after the retry had succeeded", n-delsAtGone, key)
 		return
 	}
